@@ -25,6 +25,12 @@ MULTI = [E[n] for n in ("Big5", "EUC-JP", "EUC-KR", "GBK", "ISO-2022-JP", "Shift
 SINGLE = [i for i in range(40) if i not in MULTI]
 
 
+HOT_LABELS = ("behind BOM", "BOM sniffing", "BOM removal", "regime=E", "then large", "one symbolic byte, escape", "every capacity", "a concrete",
+              "first=F0..F4", "around 2^", "query right after", "state after escape prefix", "below the documented minimum", "mode=sniff",
+              "U+13000", "U+13040", "U+103C0", "U+103F0", "U+10FFC0", "U+10FFF0", "U+03E0", "U+2708", "U+18698", "U+F4238", "U+0400", "U+2100",
+              "neighbours=2,", "neighbours=8,", "nb=2,", "nb=8,", "nb=5,1", "debug-assertions build", "fast-legacy-encode] Big5", "prefix=3 ", "prefix=13 ")
+
+
 def J(harness, params=None, **kw):
     d = dict(harness=harness, params=params or {})
     d.update(kw)
@@ -32,6 +38,15 @@ def J(harness, params=None, **kw):
     # lookups scan thousands of table entries per candidate value); start them first instead of leaving them as the tail
     if "small_index_fork" in kw and d["params"].get(4) in (0x4E00, 0xAC00) and not d["params"].get(3):
         d["weight"] = 50
+    # priority 0 (started first when a tier has a wall budget): the shape families that exist because a seeded change or a genuine
+    # defect was missed without them, and the lead bytes that select their own state-machine arm
+    lab = d.get("label", "")
+    if "prio" not in d:
+        hot = any(t in lab for t in HOT_LABELS)
+        if not hot and "first=" in lab and isinstance(d["params"].get(0), int) and 0 <= d["params"][0] < 40 and ENC_NAMES[d["params"][0]] in SPECIAL_LEADS:
+            lo, hi = d["params"].get(5, -1), d["params"].get(6, -1)
+            hot = any(lo <= b <= hi for b in SPECIAL_LEADS[ENC_NAMES[d["params"][0]]]) and hi - lo < 64
+        d["prio"] = 0 if hot else 1
     # the shard of complete four-byte UTF-8 sequences (decoder harnesses: params 1/2 = byte count range, 5/6 = first-byte range):
     # exactly four symbolic bytes - the shorter streams with these leads are in the N <= 3 shards
     if d["params"].get(5) == 0xF0 and d["params"].get(6) == 0xF4 and d["params"].get(2) == 4 and d["params"].get(1) == 1:
@@ -129,6 +144,14 @@ def lead_shards(enc, n):
     if hi < 0xFF:
         out.append((hi + 1, 0xFF))
     return out
+
+
+# lead bytes whose shard is always part of a quick tier (they select a different state machine arm, not just a different table row)
+SPECIAL_LEADS = {"Big5": (0x88,), "GBK": (0x81,), "gb18030": (0x81, 0x90), "EUC-JP": (0x8E,), "Shift_JIS": (0xF0,), "EUC-KR": ()}
+
+
+def special_shards(enc, shards):
+    return [sh for sh in shards if any(sh[0] <= b <= sh[1] for b in SPECIAL_LEADS.get(enc, ()))]
 
 
 def c01_jobs(tier, seed):
@@ -232,10 +255,14 @@ def c02_jobs(tier, seed):
         mn = 2 if sink == 0 else 4
         # regimes: A = 2 cuts + optional empty final call, large sink; B = 1 cut, 3 symbolic per-call capacities
         # min..min+2; C = 2 cuts + empty final call at the fixed documented minimum; D = 2 cuts, capacities min..min+1
-        cmin, cmax, ncuts, el = {"A": (24, 24, 2, 1), "B": (mn, mn + (1 if q else 2), 1, 0), "C": (mn, mn, 2, 1), "D": (mn, mn + 1, 2, 0)}[regime]
+        # E = 1 cut, the first two calls at one symbolic capacity BELOW the documented minimum (0..min-1: no progress possible, a panic
+        # permitted), then a large destination - the String::new() + reserve-on-OutputFull pattern
+        cmin, cmax, ncuts, el = {"A": (24, 24, 2, 1), "B": (mn, mn + (1 if q else 2), 1, 0), "C": (mn, mn, 2, 1), "D": (mn, mn + 1, 2, 0),
+                                 "E": (0, mn - 1, 1, 1)}[regime]
         nd = [9999] + list(need)
+        extra = {"tolerate_panic": True} if regime == "E" else {}
         jl.append(J("se_h_c02_chunk", {0: E[enc], 1: n0, 2: n1, 3: sink, 4: repl, 5: lo, 6: hi, 7: pre, 8: bom, 9: cmin, 10: cmax, 11: ncuts, 12: el,
-                                       13: 2 if q else 3},
+                                       13: 1 if regime == "E" else 2 if q else 3, 14: 1 if regime == "E" else 0}, **extra,
                     label="%s n=%d..%d sink=%s repl=%d first=%02X..%02X prefix=%d regime=%s%s" % (enc, n0, n1, SINKS[sink], repl, lo, hi, pre, regime,
                                                                                                   ("", " BOM removal", " BOM sniffing")[bom]),
                     need=nd, weight=weight, time_budget=900 if q else 3000))
@@ -284,6 +311,7 @@ def c02_jobs(tier, seed):
             pick = [shards[0], shards[-1]] + rnd.sample(mid, 2)
             if enc in ("GBK", "gb18030") and shards[1] not in pick:
                 pick.append(shards[1])         # leads 0x81..: the four-byte forms and their pending_ascii machinery
+            pick += [sh for sh in special_shards(enc, shards) if sh not in pick]
         else:
             pick = shards
         n1 = 3
@@ -318,6 +346,22 @@ def c02_jobs(tier, seed):
                 for g in bregs:
                     for (lo, hi) in rs:
                         add(enc, 1, 4 if enc.startswith("UTF-16") else 3, s, r, lo, hi, 0, g, bom=bom, weight=30 if cjk else 12)
+    # regime E (tiny destinations first) for every decoder family, BOM handling off and sniffing
+    for enc in ("windows-1252", "x-user-defined", "UTF-8", "UTF-16LE", "Big5", "gb18030", "Shift_JIS", "EUC-JP", "EUC-KR", "ISO-2022-JP", "replacement"):
+        cjk = enc in ("EUC-KR", "Big5", "gb18030", "Shift_JIS", "EUC-JP")
+        if enc == "UTF-8":
+            rs = [(0xE8, 0xEF)] if q else UTF8_RANGES
+        elif enc == "UTF-16LE":
+            rs = [(0xC0, 0xFF)] if q else Q_RANGES
+        elif cjk:
+            sh = lead_shards(enc, 16)
+            rs = [x for x in sh if x[0] <= 0xEF <= x[1]] + ([] if q else sh[:4])
+        else:
+            rs = [(0, 255)] if enc != "ISO-2022-JP" else [(0, 0x1A), (0x1B, 0x1B), (0x1C, 0xFF)]
+        for ii, (lo, hi) in enumerate(rs):
+            for bom in (0, 2):
+                for (sk, r) in ([(ii % 2, bom // 2), (1 - ii % 2, 1 - bom // 2)] if q else [(sk, r) for sk in (0, 1, 3) for r in (0, 1)]):
+                    add(enc, 0 if lo == 0 else 1, 4 if enc == "UTF-16LE" else 3, sk, r, lo, hi, 0, "E", bom=bom, weight=30 if cjk else 12)
     # UTF-8 vs UTF-16 output forms denote the same scalars
     for i in range(40):
         enc = ENC_NAMES[i]
@@ -412,6 +456,22 @@ def c10_jobs(tier, seed):
             for cls in (0, 1):
                 add(enc, n1, 0, 0, cls, bom, 24, 24, 2, weight=20)
                 add(enc, n1, 1, 1, cls, bom, 4, 4, 2, weight=20)
+    # the String::new() + reserve-on-OutputFull pattern: the first call after each cut... offers a tiny destination (0..minimum-1 units,
+    # symbolic; a call may make no progress, and below the documented minimum a panic is permitted), then the caller offers a large one;
+    # whatever was withheld must still be delivered exactly once
+    for enc in (["windows-1252", "UTF-8", "UTF-16BE", "Big5"] if q else ENC_NAMES):
+        n1 = 3
+        big = dict(mem_gb=10) if enc in ("gb18030", "GBK") else {}
+        for bom in ((2,) if (q and enc not in ("UTF-8", "UTF-16LE", "UTF-16BE")) else (2, 1)):
+            for cls in (0, 1):
+                for (sink, repl) in (((0, cls), (1, 1 - cls)) if q else ((0, 0), (0, 1), (1, 0), (1, 1), (3, 1))):
+                    mn = 2 if sink == 0 else 4
+                    for k in ((2,) if q else (1, 2, 3)):
+                        j = J("se_h_c10_bom", {0: E[enc], 1: 0, 2: n1, 3: sink, 4: repl, 5: cls, 8: bom, 9: 0, 10: mn - 1, 11: 2, 12: 1, 13: k},
+                              label="%s mode=%s n<=%d first=%s sink=%s repl=%d: first %d calls with a 0..%d unit destination, then large; cuts=2" % (
+                                  enc, MODES[bom], n1, CLS[cls], SINKS[sink], repl, k, mn - 1),
+                              need=[9999], weight=25, time_budget=900 if q else 3000, tolerate_panic=True, **big)
+                        jl.append(j)
     jl.append(J("se_h_c10_for_bom", {1: 5}, label="Encoding::for_bom on every buffer of length 0..5", need=[9999, 50, 51], weight=1))
     return jl
 
@@ -463,6 +523,16 @@ def c03_jobs(tier, seed):
             add(enc, s, r, 0, 0, 0xFFFF, weight=15)
             add(enc, s, r, 0x10000, 0, 0x03FF, weight=3)
             add(enc, s, r, 0x100000, 0xFC00, 0xFFFF, kind=1, weight=3)
+    # single-byte encoders: the symbolic character right after a mapped non-ASCII one (the inner loops behind the ASCII fast path)
+    # and between two of them; neighbours U+00A5 (2), U+20AC (8) - whichever the encoding maps - and the unmappable U+4E00 (5)
+    for i in ([E[n] for n in ("windows-1252", "windows-1251", "IBM866", "KOI8-U", "macintosh", "windows-874", "ISO-8859-2", "x-user-defined")] if q
+              else SINGLE + [E["x-user-defined"]]):
+        enc = ENC_NAMES[i]
+        for k, (before, after) in enumerate([(2, 0), (8, 1), (8, 8), (5, 2)]):
+            for (lo, hi) in ((0, 0x04FF), (0x2000, 0x26FF)) if not (enc == "x-user-defined") else ((0, 0xFF), (0xF700, 0xF8FF)):
+                add(enc, (k + 1) % 2, k // 2 % 2, 0, lo, hi, before, after, weight=8)
+                if not q:
+                    add(enc, k % 2, (k // 2 + 1) % 2, 0, lo, hi, before, after, weight=8)
     for enc in CJK_ENC:
         if q:
             # (U+D800..U+DFFF holds no scalar values: those two windows are never chosen)
@@ -572,6 +642,11 @@ def c04_jobs(tier, seed):
                 add(enc, 1, 1, repl, 0x10000, 0xF600, 0xF600 + 0xF, 0, 1, 0, 5, g)          # astral after an ASCII prefix, UTF-16
                 add(enc, 0, 1, repl, 0, 0x80, 0xFF, 1, 5, repl, 2, g)                      # Latin1 range, forms differ
                 add(enc, 1, 0, repl, 0, 0x2000, 0x2000 + W, 6, 0, 0, 0, g)
+            # U+0000..U+00FF right after a mapped non-ASCII character (U+00A5 / U+20AC): the loops behind the ASCII fast path, whose
+            # ASCII / non-ASCII class tests are separate code in the UTF-8 and UTF-16 paths
+            for g in (("B",) if q else ("A", "B", "C")):
+                add(enc, 0, 1, repl, 0, 0x00, 0xFF, 2 if repl else 8, 1, 0, 1, g)
+                add(enc, 1, 0, repl, 0, 0x00, 0xFF, 8 if repl else 2, 0, 0, 0, g)
     for enc in ("UTF-8", "UTF-16LE", "replacement"):
         for g in ("A", "B", "C"):
             add(enc, 0, 1, 0, 0, 0x07C0, 0x083F, 1, 6, 0, 2, g)
@@ -583,8 +658,9 @@ def c04_jobs(tier, seed):
     for g in ("A", "B", "C"):
         add("windows-1252", 0, 1, g != "A", 0x100000, 0xFFF0, 0xFFFF, 1, 1, 0, 2, g)
         add("windows-1252", 0, 1, g == "A", 0x10000, 0x03F0, 0x03FF, 1, 1, 0, 2, g)
-    wins = {"Big5": [0x4E00, 0x2550], "EUC-KR": [0xAC00, 0x4E00], "Shift_JIS": [0x3040, 0xFF60, 0x2200], "EUC-JP": [0x3040, 0xFF60, 0x2200],
-            "GBK": [0x4E00, 0x20A0, 0xE780], "gb18030": [0x4E00, 0x20A0, 0xE780, 0x0080], "ISO-2022-JP": [0x3040, 0xFF60, 0x2200, 0x0000, 0x4E00]}
+    # (U+0400..: Cyrillic - mappable in every one of them and two bytes long in UTF-8, the only such class)
+    wins = {"Big5": [0x4E00, 0x2550, 0x0400], "EUC-KR": [0xAC00, 0x4E00, 0x0400], "Shift_JIS": [0x3040, 0xFF60, 0x2200, 0x0400], "EUC-JP": [0x3040, 0xFF60, 0x2200, 0x0400],
+            "GBK": [0x4E00, 0x20A0, 0xE780, 0x0400], "gb18030": [0x4E00, 0x20A0, 0xE780, 0x0080, 0x0400], "ISO-2022-JP": [0x3040, 0xFF60, 0x2200, 0x0000, 0x4E00, 0x0400]}
     for enc, ws in wins.items():
         if not q:
             ws = sorted(set(ws) | set(range(0, 0x10000, 0x1000)))
@@ -634,8 +710,8 @@ def c12_jobs(tier, seed):
                     label="%s from %s U+%04X..U+%04X nb=%d,%d sink=%s cap=%d..%d" % (enc, ("utf8", "utf16")[form], base + lo, base + hi, before, after,
                                                                                      ("slice", "Vec")[kind], cmin, cmax),
                     need=[9999], weight=weight, small_index_fork=64, time_budget=900 if q else 3000))
-    fold_wins = {"EUC-JP": [0x0080, 0x2000, 0x2200, 0xFF00], "Shift_JIS": [0x0080, 0x2000, 0x2200, 0xFF00],
-                 "ISO-2022-JP": [0x0000, 0x0080, 0x2000, 0x2200, 0xFF00, 0x3000, 0x4E00], "GBK": [0xE700, 0xE800, 0x2000, 0x4E00],
+    fold_wins = {"EUC-JP": [0x0080, 0x2000, 0x2100, 0x2200, 0xFF00], "Shift_JIS": [0x0080, 0x2000, 0x2100, 0x2200, 0xFF00],
+                 "ISO-2022-JP": [0x0000, 0x0080, 0x2000, 0x2100, 0x2200, 0xFF00, 0x3000, 0x4E00], "GBK": [0xE700, 0xE800, 0x2000, 0x4E00],
                  "gb18030": [0xE700, 0xE800, 0x2000, 0x4E00, 0x0080], "Big5": [0x2500, 0x4E00, 0x5300], "EUC-KR": [0xAC00, 0x4E00]}
     for enc, ws in fold_wins.items():
         if not q:
@@ -699,6 +775,8 @@ def dec_shapes(tier, seed):
             pick += [s for s in sp if s not in pick]
         if q and enc in ("GBK", "gb18030") and shards[1] not in pick:
             pick.append(shards[1])                                 # leads 0x81..: four-byte forms
+        if q:
+            pick += [sh for sh in special_shards(enc, shards) if sh not in pick]     # EUC-JP 8E/8F, Shift_JIS EUDC, gb18030 astral
         out.append((enc, 3, pick, [0]))
     out.append(("ISO-2022-JP", 3, [(0, 0x1A), (0x1B, 0x1B), (0x1C, 0xFF)], [0]))
     out.append(("ISO-2022-JP", 2 if q else 3, [(0, 255)], [4, 5, 8, 13] if q else list(range(1, 15))))
@@ -736,8 +814,9 @@ def enc_shapes(tier, seed):
         out += [(enc, 0x10000, 0xF600, 0xF60F, 0, 1, 5), (enc, 0, 0x80, 0xFF, 1, 5, 2), (enc, 0, 0x2000, 0x2000 + W, 6, 0, 0)]
     for enc in ("UTF-8", "UTF-16LE", "replacement"):
         out += [(enc, 0, 0x07C0, 0x083F, 1, 6, 2), (enc, 0x10000, 0, W, 4, 1, 0)]
-    wins = {"Big5": [0x4E00, 0x2550], "EUC-KR": [0xAC00, 0x4E00], "Shift_JIS": [0x3040, 0xFF60, 0x2200], "EUC-JP": [0x3040, 0xFF60, 0x2200],
-            "GBK": [0x4E00, 0x20A0, 0xE780], "gb18030": [0x4E00, 0x20A0, 0xE780, 0x0080], "ISO-2022-JP": [0x3040, 0xFF60, 0x2200, 0x0000, 0x4E00]}
+    # (U+0400..: Cyrillic - mappable in every one of them and two bytes long in UTF-8, the only such class)
+    wins = {"Big5": [0x4E00, 0x2550, 0x0400], "EUC-KR": [0xAC00, 0x4E00, 0x0400], "Shift_JIS": [0x3040, 0xFF60, 0x2200, 0x0400], "EUC-JP": [0x3040, 0xFF60, 0x2200, 0x0400],
+            "GBK": [0x4E00, 0x20A0, 0xE780, 0x0400], "gb18030": [0x4E00, 0x20A0, 0xE780, 0x0080, 0x0400], "ISO-2022-JP": [0x3040, 0xFF60, 0x2200, 0x0000, 0x4E00, 0x0400]}
     for enc, ws in wins.items():
         if not q:
             ws = sorted(set(ws) | set(range(0, 0x10000, 0x1000)))
@@ -757,8 +836,55 @@ def enc_shapes(tier, seed):
     return out
 
 
-def c08_jobs(tier, seed):
+def long_jobs(tier, seed, symfill=False):
+    """streaming conversions of long ASCII runs (the 16-unit strides of the ASCII fast paths) against every output limit"""
     jl = []
+    q = tier == "quick"
+    SINKS = ("utf16", "utf8", "str", "String")
+    encs = ["windows-1252", "UTF-8", "Big5", "gb18030", "ISO-2022-JP", "x-user-defined", "UTF-16LE"] if q else \
+        ["windows-1252", "windows-874", "UTF-8", "Big5", "EUC-KR", "EUC-JP", "Shift_JIS", "GBK", "gb18030", "ISO-2022-JP", "x-user-defined", "UTF-16LE", "UTF-16BE", "replacement"]
+    i = 0
+    for enc in encs:
+        cjk = enc in ("Big5", "EUC-KR", "Shift_JIS", "EUC-JP", "GBK", "gb18030")
+        if enc == "UTF-8":
+            lo, hi = 0xC2, 0xF4
+        elif cjk:
+            lo, hi = lead_shards(enc, 16)[3]
+        else:
+            lo, hi = 0x80, 0xFF
+        for k in ((16, 33) if q else (15, 16, 17, 31, 32, 33)):
+            if enc.startswith("UTF-16") and k > 17:
+                continue              # (every pair of bytes becomes up to three output bytes: beyond the harness's 48-event log)
+            for s in ((i % 2) * 2,) if q else (0, 2):
+                for (sink, repl) in ([(i % 2, (i // 2) % 2), (2 + i % 2, (i // 2 + 1) % 2)] if (q and not symfill) else [(i % 2, (i // 2) % 2)] if q else [(sk, r) for sk in range(4) for r in (0, 1)]):
+                    if symfill and sink > 1:
+                        continue
+                    mn = 2 if sink == 0 else 4
+                    jl.append(J("se_h_c08_long", {0: E[enc], 1: k, 2: 2, 3: sink, 4: repl, 5: lo, 6: hi, 7: s, 9: mn, 10: k + 3, 14: 500 if symfill else 0},
+                                label="decode %s: %d ASCII + n<=2 symbolic (first %02X..%02X) + %d ASCII, sink=%s repl=%d, every capacity %d..%d%s" % (
+                                    enc, k, lo, hi, s, SINKS[sink], repl, mn, k + 3, ", symbolic pre-fill" if symfill else ""),
+                                need=[9999], weight=35, time_budget=900 if q else 3000, **({"mem_gb": 10} if enc in ("gb18030", "GBK") else {})))
+                i += 1
+    ewins = {"windows-1252": (0, 0x80, 0x17F), "UTF-8": (0, 0x7C0, 0x83F), "Big5": (0, 0x4E00, 0x4E3F), "gb18030": (0, 0x0080, 0x00BF), "ISO-2022-JP": (0, 0x3040, 0x307F),
+             "x-user-defined": (0, 0xF780, 0xF7BF), "UTF-16LE": (0x10000, 0, 0x3F), "EUC-KR": (0, 0xAC00, 0xAC3F), "EUC-JP": (0, 0xFF60, 0xFF9F), "Shift_JIS": (0, 0xFF60, 0xFF9F),
+             "GBK": (0, 0x20A0, 0x20DF), "windows-874": (0, 0x0E00, 0x0E3F), "UTF-16BE": (0, 0x2000, 0x203F), "replacement": (0x10000, 0, 0x3F)}
+    for enc in encs:
+        base, lo, hi = ewins[enc]
+        for k in ((16, 33) if q else (15, 16, 17, 31, 32, 33)):
+            for (form, repl) in ([(i % 2, (i // 2) % 2)] if q else [(f, r) for f in (0, 1) for r in (0, 1)]):
+                if symfill:
+                    continue
+                mn = 14 if repl else 4
+                jl.append(J("se_h_c08_long_enc", {0: E[enc], 1: form, 2: repl, 3: base, 4: lo, 5: hi, 6: k, 7: (i % 2) * 2, 8: 0 if form else i // 2 % 2, 9: mn, 10: k + 6},
+                            label="encode %s from %s repl=%d: %d ASCII + U+%04X..U+%04X + %d ASCII, every capacity %d..%d" % (
+                                enc, ("utf8", "utf16")[form], repl, k, base + lo, base + hi, (i % 2) * 2, mn, k + 6),
+                            need=[9999], weight=35, small_index_fork=64, time_budget=900 if q else 3000))
+                i += 1
+    return jl
+
+
+def c08_jobs(tier, seed):
+    jl = long_jobs(tier, seed)
     q = tier == "quick"
     SINKS = ("utf16", "utf8", "str", "String")
     k = 0
@@ -1162,6 +1288,10 @@ def c17_jobs(tier, seed):
             k = dict(j)
             k["ir"] = key
             k["label"] = "[%s] %s" % (ALT_FEATURES[key], j["label"])
+            # the hanzi / hangul windows are the point of this check and by far its longest jobs (GBK on the less-slow build: minutes)
+            if k["params"][3] == 0 and 0x4E00 <= k["params"][4] < 0xD800:
+                k["prio"] = 0
+                k["weight"] = 90 if ENC_NAMES[k["params"][0]] in ("GBK", "gb18030") else 60
             jl.append(k)
     return jl
 
@@ -1281,7 +1411,8 @@ def c06_jobs(tier, seed):
     rnd = random.Random(seed)
     base = [j for j in jl if j["harness"] in ("se_h_c08_dec", "se_h_c08_enc") and not j.get("tolerate_panic") and ENC_NAMES[j["params"][0]] in
             ("windows-1252", "UTF-8", "UTF-16LE", "Big5", "gb18030", "ISO-2022-JP", "Shift_JIS", "EUC-KR", "x-user-defined")]
-    for j in (rnd.sample(base, min(len(base), 40)) if q else base):
+    longs = [j for j in jl if j["harness"] in ("se_h_c08_long", "se_h_c08_long_enc")]
+    for j in (rnd.sample(base, min(len(base), 40)) + longs[::3] if q else base + longs):
         k = dict(j)
         k["ir"] = "checked"
         k["label"] = "[debug-assertions build] " + j["label"]
@@ -1348,6 +1479,7 @@ def c18_jobs(tier, seed):
             jl.append(J("se_h_c18_enc", {0: E[enc], 1: i % 2, 2: repl, 3: base, 4: lo, 5: hi, 6: b, 7: a, 9: min(pfx, 3), 12: (14 if repl else 4) + i % 3},
                         label="encode %s from %s repl=%d U+%04X..U+%04X nb=%d,%d, twin symbolic pre-fills" % (enc, ("utf8", "utf16")[i % 2], repl, base + lo, base + hi, b, a),
                         need=[9999], weight=10, small_index_fork=64, time_budget=900 if q else 3000))
+    jl += long_jobs(tier, seed, symfill=True)
     for f in range(6):
         for pre in ((0, 15, 16) if q else (0, 1, 15, 16, 17, 31)):
             jl.append(J("se_h_c18_mem", {0: f, 1: 2 if q else 3, 2: pre}, label="mem function %d: %d ASCII + symbolic units, twin symbolic pre-fills" % (f, pre), need=[9999], weight=10))
@@ -1355,7 +1487,7 @@ def c18_jobs(tier, seed):
 
 
 PROPS["C18"] = dict(
-    cfgs=["verif_c18"], level="model_checking", jobs=c18_jobs, need_global=[30],
+    cfgs=["verif_c18", "verif_c08"], level="model_checking", jobs=c18_jobs, need_global=[30],
     explanation=("Self-composition: each call history is executed on twin real converters whose destinations are pre-filled, before every call, with two independent sets of fresh "
                  "SYMBOLIC units. All return values, the number of calls, had_errors and the written prefixes must be equal for every value of both fills - which is stronger than three "
                  "fixed fill patterns: any unit of the written prefix that the call did not store, or any decision computed from old destination contents, makes the equality "
@@ -1386,6 +1518,13 @@ def c19_jobs(tier, seed):
                         jl.append(J("se_h_c19", {0: E[enc], 1: pmax if pre == 0 else 0, 2: 2, 3: k0, 4: k1, 5: lo, 6: hi, 7: pre, 8: bom, 9: 2},
                                     label="%s state after prefix<=%d (first %02X..%02X, escape prefix %d), bom=%d; buffer = %d..%d ASCII + 2 symbolic + 0..2 ASCII" % (enc, pmax, lo, hi, pre, bom, k0, k1),
                                     need=[9999], weight=30, time_budget=900 if q else 3000))
+    # ISO-2022-JP: every shift state entered by a concrete escape and then left "settled" by one more symbolic byte (right after an
+    # escape the output flag alone answers None): Roman passes ASCII through except 5C / 7E, katakana and JIS X 0208 nothing
+    for pre in ((1, 2, 3, 5, 6) if q else range(1, 15)):
+        for (k0, k1) in kr[:1] if q else kr:
+            jl.append(J("se_h_c19", {0: E["ISO-2022-JP"], 1: 1 if q else 2, 2: 2, 3: k0, 4: k1, 5: 0, 6: 255, 7: pre, 8: 0, 9: 2},
+                        label="ISO-2022-JP state after escape prefix %d + <=%d symbolic bytes; buffer = %d..%d ASCII + 2 symbolic + 0..2 ASCII" % (pre, 1 if q else 2, k0, k1),
+                        need=[9999], weight=30, time_budget=900 if q else 3000))
     # query point right after a Malformed return (deferred outputs such as gb18030's pending ASCII byte)
     for (enc, nmax, ranges, pres) in dec_shapes(tier, seed):
         cjk = enc in ("Big5", "EUC-KR", "Shift_JIS", "EUC-JP", "GBK", "gb18030")
